@@ -112,6 +112,9 @@ pub enum Pre {
     Identical,
     /// an existing file of the same length with different content
     Garbage,
+    /// like `Garbage`, and the modification time the file had before is put back (`cp -p`, a
+    /// restore from backup): the file looks untouched to anything that trusts size and mtime
+    GarbageKeepMtime,
     /// whatever is at the path is removed first
     Removed,
     /// an existing unrelated file of this length
@@ -135,6 +138,7 @@ impl Pre {
             Pre::Longer(_) => "longer",
             Pre::Identical => "identical",
             Pre::Garbage => "garbage",
+            Pre::GarbageKeepMtime => "garbage_keep_mtime",
             Pre::Removed => "removed",
             Pre::Other(_) => "other",
             Pre::SymlinkToFile(_) => "symlink_to_file",
@@ -629,7 +633,8 @@ pub fn gen_run(verif_seed: u64, index: u64) -> IoRun {
             op.crash_at = None;
             op.plan = fresh.plan.clone();
             op.rlimit = None;
-            op.pre = match rng.weighted(&[30, 25, 15, 10, 10, 10]) {
+            op.pre = match rng.weighted(&[30, 18, 15, 10, 10, 10, 12]) {
+                6 => Pre::GarbageKeepMtime,
                 0 => Pre::Absent,
                 1 => Pre::Garbage,
                 2 => Pre::Longer(*rng.pick(&[1usize, 4096])),
@@ -1124,6 +1129,20 @@ pub fn exec_op(dir: &Path, idx: usize, op: &IoOp, stats: &mut Stats, pre: Option
                 }
                 Pre::Identical => Some(expected.clone()),
                 Pre::Garbage => Some(expected.iter().map(|b| b ^ 0x55).collect()),
+                Pre::GarbageKeepMtime => {
+                    let old = std::fs::metadata(&path).ok().and_then(|m| m.modified().ok());
+                    let junk: Vec<u8> = expected.iter().map(|b| b ^ 0x33).collect();
+                    if std::fs::symlink_metadata(&path).map(|m| m.file_type().is_symlink()).unwrap_or(false) {
+                        let _ = std::fs::remove_file(&path);
+                    }
+                    std::fs::write(&path, &junk).expect("write pre-state");
+                    if let Some(t) = old {
+                        if let Ok(f) = std::fs::OpenOptions::new().write(true).open(&path) {
+                            let _ = f.set_modified(t);
+                        }
+                    }
+                    None
+                }
                 Pre::Removed => {
                     let _ = std::fs::remove_file(&path);
                     None
